@@ -1,6 +1,7 @@
 import keyword
 import re
 import string
+import unicodedata
 from abc import ABC, abstractmethod
 
 
@@ -15,6 +16,8 @@ class BuiltinNameSanitizer(NameSanitizer):
     _TRANSLATE_MAP = str.maketrans({".": "_", "[": "_"})
 
     def sanitize(self, name: str) -> str:
+        # Python parser normalizes identifiers, so name that is not normalized never matches its own namespace key
+        name = unicodedata.normalize("NFKC", name)
         if name == "":
             return ""
 
